@@ -632,7 +632,7 @@ func buildDomain[T any](p Opt) *domain[T] {
 	per := p.Vals
 	if per == 0 {
 		per = 3
-		if n > 3 {
+		if n > 3 && n <= 6 {
 			per = 2
 		}
 	}
@@ -649,13 +649,21 @@ func buildDomain[T any](p Opt) *domain[T] {
 		comps[i] = c
 	}
 	idx := make([]int, n)
+	oneHot, hot, hotVal := n > 6, -1, 1 // more than six fields: a one-hot walk instead of all combinations
 	for {
 		cur := append([]int(nil), idx...)
 		var ds []string
 		for i, j := range cur {
 			ds = append(ds, comps[i][j].desc)
 		}
-		g := gen{"{" + strings.Join(ds, ", ") + "}", func() reflect.Value {
+		desc := "{" + strings.Join(ds, ", ") + "}"
+		if oneHot {
+			desc = "{all first values}"
+			if hot >= 0 {
+				desc = fmt.Sprintf("{all first values but %s = %s}", t.Field(hot).Name, comps[hot][cur[hot]].desc)
+			}
+		}
+		g := gen{desc, func() reflect.Value {
 			v := reflect.New(t).Elem()
 			for i, j := range cur {
 				open(v.Field(i)).Set(comps[i][j].mk())
@@ -664,6 +672,27 @@ func buildDomain[T any](p Opt) *domain[T] {
 		}}
 		d.descs = append(d.descs, g.desc)
 		d.mk = append(d.mk, conv(g))
+		if oneHot {
+			// base value, then every field in turn at its second value, then at its third
+			for i := range idx {
+				idx[i] = 0
+			}
+			hot++
+			if hot >= n {
+				hot, hotVal = 0, hotVal+1
+			}
+			for hotVal <= 2 && hotVal >= len(comps[hot]) {
+				hot++
+				if hot >= n {
+					hot, hotVal = 0, hotVal+1
+				}
+			}
+			if hotVal > 2 || (hotVal == 2 && n > 12) {
+				break
+			}
+			idx[hot] = hotVal
+			continue
+		}
 		k := n - 1
 		for k >= 0 {
 			idx[k]++
